@@ -35,7 +35,7 @@ def log(*a):
 
 def build_replay():
     """(re)build the replay tool against /repo's current working tree"""
-    env = dict(os.environ, CARGO_NET_OFFLINE='true')
+    env = dict(os.environ, CARGO_NET_OFFLINE='true', CARGO_TARGET_DIR=os.path.join(VERIF, 'replay', 'target'))
     lock_src = os.path.join(REPO, 'Cargo.lock')
     cmd = ['cargo', 'build', '--release', '--offline', '--quiet']
     p = subprocess.run(cmd, cwd=os.path.join(VERIF, 'replay'), env=env, stdout=subprocess.PIPE,
@@ -244,7 +244,9 @@ def decide(pid, tier, spec, seed, t0, workdir, ev_path):
     for f in failures:
         hit = None
         for k in known:
-            if k.get('obligation') == f['obligation']:
+            # findings with a matcher are recognised input by input inside the replay tool (--known); only findings
+            # without one are matched by obligation id
+            if not k.get('matcher') and k.get('obligation') == f['obligation']:
                 hit = k
         if hit:
             known_hits.append((hit, f))
